@@ -162,7 +162,7 @@ def coq_property(prop_file, timeout=1200):
         if b.startswith("Closed under"):
             res["theorems"].append({"name": n, "closed": True, "axioms": []})
         else:
-            ax = re.findall(r"(?m)^([\w.']+)\s*:", b)
+            ax = [a for a in re.findall(r"(?m)^([\w.']+)\s*:", b) if a != "Axioms"]      # the block header line is "Axioms:"
             res["theorems"].append({"name": n, "closed": False, "axioms": ax})
     if len(blocks) != len(names):
         res["ok"] = False
